@@ -96,7 +96,17 @@ def _in_memory_order(spec, tg):
 def run_roundtrip(case):
     p = P()
     spec = case["tg"]
-    tg = mk_tg(spec)
+    if case.get("pad"):
+        # the caller's labels carry white space the tier trims (str.strip(): also U+00A0, U+2028, U+3000 ...)
+        import copy
+        padded = copy.deepcopy(spec)
+        for t in padded["tiers"]:
+            for e in t["entries"]:
+                if e[-1]:
+                    e[-1] = case["pad"] + e[-1] + case["pad"]
+        tg = mk_tg(padded)
+    else:
+        tg = mk_tg(spec)
     spec = _in_memory_order(spec, tg)
     clean = all((t["minT"], t["maxT"]) == (spec["minT"], spec["maxT"]) for t in spec["tiers"])
     has_explicit_empty = any(e[-1] == "" for t in spec["tiers"] for e in t["entries"])
@@ -185,7 +195,7 @@ def cases(draw):
                     t["maxT"] = hi
     # the default minimumIntervalLength (1e-8) is used where no interval or gap can be that short
     mil = "default" if gen.min_gap(tg) >= 1e-6 and draw(st.integers(0, 2)) > 0 else "none"
-    return {"tg": tg, "mil": mil}
+    return {"tg": tg, "mil": mil, "pad": draw(st.sampled_from([None, None, None, "\u00a0", "\u3000", "\u2028", "\x1c", " "]))}
 
 
 CHECKS = [
